@@ -39,6 +39,8 @@ let drain fuel input r =
   TextReader.run_next (nat_of_int (Stdlib.List.length input + 2)) fuel r
 
 let () =
+  (* the exact capacity requirement proved tight in Props/C07.v (C07_stream_eq_slice / C07_stream_full) *)
+  register "tr.need" (function [h] -> string_of_int (int_of_nat (TextRef.need (bytes_of_hex h))) | _ -> "BADCASE");
   register "tr.slice" (function [h] -> show_run (TextReader.run_slice (bytes_of_hex h)) | _ -> "BADCASE");
   register "tr.subslice" (function [h; n] ->
       let d = bytes_of_hex h in
